@@ -157,10 +157,10 @@ func corrLayout(o corrOpts) *res.Summary {
 			seed := r.U64() % 1000000007
 			base := gen.Options{Root: fmt.Sprintf("k%db", i), Ignores: kind == "layout" && i%2 == 0, TestFiles: i%5 == 1}
 			g := group{seed: seed, base: base.Root}
-			specs = append(specs, genSpec{seed, base})
+			specs = append(specs, genSpec{seed: seed, o: base})
 			for j, v := range variantsFor(base) {
 				v.o.Root = fmt.Sprintf("k%dv%d", i, j)
-				specs = append(specs, genSpec{seed, v.o})
+				specs = append(specs, genSpec{seed: seed, o: v.o})
 				g.variants = append(g.variants, v.o.Root)
 				g.names = append(g.names, v.name)
 			}
